@@ -12,6 +12,7 @@ import (
 	"time"
 
 	"github.com/q191201771/lal/pkg/base"
+	"github.com/q191201771/lal/pkg/logic"
 
 	"verif/lib/lalenv"
 	"verif/lib/seqx"
@@ -29,6 +30,7 @@ type cfg struct {
 	Push     []string `json:"push"`      // relay push target names
 	Query    []string `json:"query"`     // URL parameters of successive publishers
 	RtspPub  bool     `json:"rtsp_pub"`
+	CustPub  bool     `json:"cust_pub"` // the publisher is a customize pub session (ILalServer.AddCustomizePubSession)
 	RtspPull bool     `json:"rtsp_pull"` // the API pull goes to an RTSP origin
 	Alphabet []string `json:"alphabet"`
 	MaxSubs  int      `json:"max_subs"`
@@ -39,6 +41,18 @@ type cfg struct {
 type replay struct {
 	Cfg   cfg      `json:"cfg"`
 	Trace []string `json:"trace"`
+}
+
+// custPub: a customize pub session as the stream's input; closing it = DelCustomizePubSession.
+type custPub struct {
+	w   *world.W
+	ctx logic.ICustomizePubSessionContext
+}
+
+func (c custPub) Close() {
+	if c.ctx != nil {
+		c.w.SM.DelCustomizePubSession(c.ctx)
+	}
 }
 
 type sys struct {
@@ -285,7 +299,17 @@ func (s *sys) Apply(ev string) error {
 		if q != "" {
 			name += "?" + q
 		}
-		if s.c.RtspPub {
+		if s.c.CustPub {
+			ctx, e := w.SM.AddCustomizePubSession(stream)
+			ok := e == nil
+			if ok {
+				s.pub, s.pubOK = custPub{w, ctx}, func() bool { return true }
+			} else {
+				s.pub, s.pubOK = custPub{w, nil}, func() bool { return false }
+			}
+			q = ""
+			err = w.Settle()
+		} else if s.c.RtspPub {
 			var p *world.RtspPeer
 			p, err = w.RtspPublisher("rtsp://h/live/"+name, sdpAac, []string{"streamid=0"})
 			if err == nil {
@@ -571,6 +595,9 @@ func configs(r *vk.Run) []cfg {
 		cs = append(cs, cfg{Name: fmt.Sprintf("api-pull-rtsp(retry=%d,autostop=%d)", p.r, p.a), Retry: p.r, AutoStop: p.a, RtspPull: true, Alphabet: pullAlpha, MaxSubs: 1, MaxPubs: 1})
 	}
 	long := strings.Repeat("k=0123456789abcdef&", 300) + "z=1"
+	// the input is a customize pub session (no connection, no network session: the pull rules must count it as an input all the same)
+	cs = append(cs, cfg{Name: "api-pull+customize-pub(retry=1,autostop=-1)", Retry: 1, AutoStop: -1, CustPub: true, Alphabet: pullAlpha, MaxSubs: 1, MaxPubs: 1})
+	cs = append(cs, cfg{Name: "static-pull+customize-pub", Static: true, CustPub: true, Alphabet: []string{"J", "T", "Pub", "Kick"}, MaxSubs: 1, MaxPubs: 1})
 	cs = append(cs, cfg{Name: "push-2-targets", Push: []string{"pushA", "pushB"}, Query: []string{"", "a=1&b=2"}, Alphabet: []string{"T", "Pub"}, MaxPubs: 2})
 	cs = append(cs, cfg{Name: "push-long-query", Push: []string{"pushA"}, Query: []string{strings.Repeat("p", 150), long}, Alphabet: []string{"T", "Pub"}, MaxPubs: 2})
 	cs = append(cs, cfg{Name: "push-rtsp-pub", Push: []string{"pushA"}, RtspPub: true, Query: []string{"", ""}, Alphabet: []string{"T", "Pub"}, MaxPubs: 2})
